@@ -62,12 +62,30 @@ func TestC12(t *testing.T) {
 		levels := []gen.Level{gen.LvlBase, gen.LvlColl, gen.LvlCRL, gen.LvlCRLNoColl}
 		var verdicts [4]gen.Verdict
 		var logs [4][]string
+		zeroUnused := rapid.Bool().Draw(t, "unusedTimesLeftZero")
 		for i, l := range levels {
 			g := w.NewGetter()
 			o := w.Options(l, g, nil)
+			if zeroUnused && o.Now != nil {
+				// a caller that fills in only the times of the checks it asked for
+				if !o.GetCollateral {
+					o.Now.TcbInfo, o.Now.QeIdentity = time.Time{}, time.Time{}
+				}
+				if !o.CheckRevocations {
+					o.Now.PckCrl, o.Now.RootCaCrl = time.Time{}, time.Time{}
+				}
+			}
+			var before verify.TimeSet
+			if o.Now != nil {
+				before = *o.Now
+			}
 			gen.Eval()
 			verdicts[i] = gen.Call(func() error { return verify.RawTdxQuote(w.Raw, o) })
 			logs[i] = g.Requests()
+			if o.Now != nil && *o.Now != before {
+				gen.Fail(t, gen.Violation{Key: "callers-time-set-modified", Oracle: "the verdict depends only on the quote, the option settings and the fetched data (a call that rewrites the caller's time set changes the settings of the next call)", Detail: fmt.Sprintf("fault=%s level=%s: time set before %+v, after %+v", f.Name, l, before, *o.Now), Replay: w.CaseFile(l, nil, nil, nil, "nopanic")})
+				return
+			}
 		}
 		rp := func(l gen.Level, expect string) map[string]any { return w.CaseFile(l, nil, nil, nil, expect) }
 		// the same call again gives the same verdict (the verdict is a function of quote, options and fetched data)
@@ -175,6 +193,17 @@ func TestC12(t *testing.T) {
 			worlds = append(worlds, w)
 			faults = append(faults, f)
 		}
+		// what the PCS serves may change between two verifications of the SAME quote: an honest world may get a twin
+		// whose collateral has since turned bad (level out of date, leaf revoked, document expired, endpoint down ...)
+		for i := 0; i < nW; i++ {
+			if faults[i].Benign && rapid.Bool().Draw(t, fmt.Sprintf("twin%d", i)) {
+				tf := rapid.SampledFrom(gen.CollateralOnlyFaults()).Draw(t, fmt.Sprintf("twinFault%d", i))
+				worlds = append(worlds, worlds[i].CollateralTwin(tf))
+				tf.Name = "same-quote-later-collateral:" + tf.Name
+				faults = append(faults, tf)
+			}
+		}
+		nW = len(worlds)
 		getters := make([]*gen.Getter, nW)
 		for i, w := range worlds {
 			getters[i] = w.NewGetter()
